@@ -1,6 +1,7 @@
 package mon
 
 import (
+	"strings"
 	"context"
 	"fmt"
 	"net"
@@ -100,6 +101,16 @@ func runC20(c *core.Ctx) {
 			inner = g.Around("wrap", inner)
 		}
 		t = &gen.Node{Kind: "grpc", N: []int{[]int{2, 2, 7, 1}[c.R.Intn(4)]}, Kids: []*gen.Node{inner}}
+	}
+	if c.Case%10 == 6 {
+		// a long text (several hundred bytes, multi-byte runes throughout): statuses travel in headers
+		gen.Walk(t, func(n *gen.Node, _ bool) {
+			for i := range n.S {
+				if c.R.Intn(3) == 0 {
+					n.S[i] += strings.Repeat(" 日本é", 20+c.R.Intn(40))
+				}
+			}
+		})
 	}
 	gen.Walk(t, func(n *gen.Node, _ bool) {
 		if n.Kind == "grpc" && n.N[0] == 0 {
